@@ -457,7 +457,10 @@ def _noisy_environment():
     root = logging.getLogger()
     root.setLevel(1)
     root.addHandler(_Render())
-    warnings.filterwarnings('error', module=r'pytoniq_core(\.|$)')
+    # every warning is an error, wherever its stacklevel attributes it (a library call that warns with stacklevel > 1 is
+    # attributed to the caller's module); warnings that third-party packages raise about themselves stay warnings
+    warnings.simplefilter('error')
+    warnings.filterwarnings('default', module=r'(hypothesis|nacl|Cryptodome|bitarray|x25519|coverage|atheris)(\.|$)')
     _ENV['noisy'] = True
 
 
@@ -562,7 +565,7 @@ def _shard_worker(args):
         err = ''.join(traceback.format_exception(e))[-3000:]
     d = st.to_dict()
     d.update(sub=sub_name, shard=shard, status=status, error=err, wall=time.time() - t0)
-    envname = 'verbose-logging+library-warnings-are-errors' if _ENV['noisy'] else 'default'
+    envname = 'verbose-logging+warnings-are-errors' if _ENV['noisy'] else 'default'
     d['classes']['environment:' + envname] = d['classes'].get('environment:' + envname, 0) + st.evaluations
     for f in d['failures']:
         f['env'] = envname
